@@ -821,7 +821,9 @@ def compare_hashed(obs, model, keys, cols_by_table):
     mt, mm, mo = model
     bad = []
     for ws, ms in list(zip(tw, mt)) + list(zip(mw, mm)):
-        assert len(ws) == len(ms), (ws, ms)
+        if len(ws) != len(ms):      # the live table has columns the model does not know (or the converse)
+            bad.append('schema:' + (ws[0].split('.')[0].split(':')[0] if ws else '?'))
+            continue
         for w, m in zip(ws, ms):
             if not check_summary(obs[w], m):
                 bad.append(w)
@@ -999,6 +1001,13 @@ def run(tier, rng):
                 if sig in seen or len(seen) >= 3:
                     continue
                 seen.add(sig)
+                if where.startswith('schema:'):
+                    t = where[len('schema:'):]
+                    violations.append(core.Violation(
+                        'schema-differs', f'the columns of {t} in the code are not those of the model: '
+                        f'{COLS.get(t[1:])} (see Proofs/TablesProofs.v live_schema_covered)',
+                        {'table': t, 'columns': COLS.get(t[1:])}, signature=sig, found_input=False))
+                    continue
                 small = shrink_case(case, where)
                 full = eval_cases([small], tag='c11s', full=True)[0][0]
                 g, e = full.get(where, ('(hash of the column differs)', '(hash of the column differs)'))
@@ -1040,6 +1049,10 @@ def generate():
 
 
 def replay(rec):
+    if 'case' not in rec:      # schema / harness records carry no ledger: re-run a small batch
+        import random
+        res = eval_cases(mk_cases(random.Random(0), 8, 4), tag='c11r')
+        return not any(d for d, _ in res)
     case = rec['case']
     if case['mode'] != 'text':
         entries = pickle.loads(base64.b64decode(case['entries_pickle']))
